@@ -305,7 +305,7 @@ func c18ViewBoxSize(c *core.Check) {
 // hidden by default, nothing of it was visible.)
 func c18MissingSizeIsAuto(c *core.Check) {
 	p := c.Prog
-	r := c.Rule("R20", "missing width/height of an svg element is auto: in (*SVGImage).DisplayedSize and in svg.draw each of the values read from the fields width and height has its unit U compared with 0 (the value of a missing attribute)", 4)
+	r := c.Rule("R20", "missing width/height of an svg element is auto: in (*SVGImage).DisplayedSize and in svg.draw each of the values read from the fields width and height has its unit U compared with 0 (the value of a missing attribute)", 2)
 	for _, fn := range []*ssa.Function{p.Method("svg", "SVGImage", "DisplayedSize"), p.Method("svg", "svg", "draw")} {
 		if fn == nil {
 			r.Anchor("svg.(*SVGImage).DisplayedSize / svg.svg.draw")
